@@ -388,6 +388,25 @@ class C16(PropertyCheck):
                 distinct.add(mt['pipeline'])
             if len(samples) < 4 and mt['nops'] >= 4:
                 samples.append({'pipeline': mt['pipeline'][:300], 'elements': want[:80], 'source_elements_needed': mt['need']})
+        # ---- designated: (1) len of a zip whose shorter part is only known by running it agrees with the elements;
+        # (2) repeat(n) of an endless generator is lazy (it is written with flatten, but over a FINITE outer generator)
+        dprobes = [
+            ('to_str((zip(range(10).to_generator(), range(10).to_generator().filter((x: int)->{x % 3 == 0})).len(), zip(range(10).to_generator(), range(10).to_generator().filter((x: int)->{x % 3 == 0})).to_array().len()))', 's:(4, 4)'),
+            ('to_str((zip(range(3, 9).to_generator().filter((x: int)->{x > 6}), [1, 2, 3, 4, 5].to_generator()).len(), zip([1, 2, 3, 4, 5].to_generator().take_while((x: int)->{x < 3}), count().to_generator()).len()))', 's:(2, 2)'),
+            ('to_str(zip(range(10).to_generator().skip(2).take(5), range(10).to_generator().filter((x: int)->{x < 3}), [7, 8].to_generator().add([9, 10].to_generator())).len())', 's:3'),
+            ('to_str(count().to_generator().map((x: int)->{x * x}).repeat(3).take(5).to_array())', 's:[0, 1, 4, 9, 16]'),
+            ('to_str(count().to_generator().repeat(2).get(4))', 's:4'),
+            ('to_str([1, 2].to_generator().add(count().to_generator()).repeat(3).take(4).to_array())', 's:[1, 2, 0, 1]'),
+        ]
+        djobs = [{'id': f'dz{i}', 'src': f'fn c0() -> str {{ {e} }}', 'calls': ['c0'], 'limits': LIMITS} for i, (e, _) in enumerate(dprobes)]
+        dres = core.run_harness(ctx['binary'], djobs, os.path.join(workdir, 'hd'), timeout=60)
+        for job, (e, want) in zip(djobs, dprobes):
+            r = dres.get(job['id'])
+            n_eval += 1
+            got = r['calls'][0] if r and r.get('calls') else str(r and r.get('compile'))
+            if got != want:
+                violations.append({'what': 'a generator does not denote the stream its elements show (len of a zip with a part of unknown length) / repeat(n) of an endless generator is not lazy',
+                                   'case': {'src': job['src'], 'limits': LIMITS}, 'impl': got[:200], 'model': want})
         # ---- fixed probes for recorded findings
         probe = 'count().to_generator().map((x: int)->{[x, x + 1].to_generator()}).flatten().take(3).to_array()'
         pr = core.run_harness(ctx['binary'], [{'id': 'k', 'src': f'fn c0() -> str {{ to_str({probe}) }}', 'calls': ['c0'], 'limits': LIMITS}], os.path.join(workdir, 'hk'), timeout=60, shards=1).get('k')
